@@ -227,9 +227,30 @@ def r4_identity_frozen(chk: Check):
     chk.min_instances(n, 4, "resets of the identifier cache")
 
 
+def r5_nobody_unseals(chk: Check):
+    """Unsealing walks through task links and shared sub-configurations: it reopens nodes that were sealed by an earlier submission.
+    No function of the package calls it (internal API kept for tests / interactive repair)."""
+    tree = chk.tree
+    sites = []
+    for f in tree.nontest_funcs():
+        for c in fn_calls(f.node):
+            if tail(c) == "__unseal__" or (isinstance(c.func, ast.Name) and c.func.id in ("Unsealer", "_Unsealer")):
+                if not f.key.startswith("core.objects:ConfigInformation.__unseal__"):
+                    sites.append((f, c))
+        for t, v, s_ in attr_stores(f.node):
+            if t.attr == "_sealed" and isinstance(v, ast.Constant) and v.value is False and "__unseal__" not in f.key and f.name != "__init__":
+                sites.append((f, s_))
+    for f, c in sites:
+        chk.violation(chk.fkey(f, "unseals"), f"`{f.qual}` unseals configurations (`{src(c)[:80]}`): every node reachable from there, including tasks already submitted and their shared "
+                      "sub-configurations, becomes assignable again and loses its cached identifier", chk.loc(f.module, c))
+    if not sites:
+        chk.ok("core.objects:unsealing sites", "", "no function of the package unseals (only ConfigInformation.__unseal__ itself)")
+
+
 RULES = [
     ("R1", "every mutation of values / _meta / pre_tasks is unreachable with `_sealed` true (bypass only in the frozen table of construction / sealing / loading / fresh-copy sites)", r1_mutator_guards),
     ("R2", "the sealing walk reaches everything the identifier depends on: argument values, list elements, dict values, pre-tasks, init tasks, producing task (recurse_task=True)", r2_seal_reaches_hash_inputs),
     ("R3", "submit: init tasks attached, then validate, then seal, then dependency collection and scheduling; job paths are derived lazily", r3_submit_order),
+    ("R5", "who may unseal: no function of the package calls __unseal__ / stores _sealed = False (except __unseal__ itself and constructors)", r5_nobody_unseals),
     ("R4", "identity frozen: identifier cache legitimacy (= C01.R3) and the cache is reset only together with unsealing", r4_identity_frozen),
 ]
